@@ -282,7 +282,7 @@ func checkC18(c *Ctx) {
 			if fh.Pkg != f.Pkg {
 				continue
 			}
-			for _, gp := range u.callsNamed(fh, "pkg/runtime.Module.GetProgram") {
+			for _, gp := range u.callsNamed(fh, "pkg/runtime.Module.GetProgram", "pkg/runtime.Module.GetName") {
 				if !loopBlock(gp.Block()) {
 					continue
 				}
@@ -527,6 +527,23 @@ func checkLineBookkeeping(c *Ctx, u *Universe) {
 		}
 		R.check(nBad == 0 && nSteps >= 4, "C18.lines", "pkg/syntax/zh."+name, pos, fmt.Sprintf("%d line-break steps: exactly one line per physical break (CRLF/LFCR as one), starting right after it", nSteps),
 			fmt.Sprintf("%d of %d line-break steps register lines wrongly; first: %s", nBad, nSteps, first))
+	}
+	// line numbers count physical lines: the scanners of tokens that can span lines (comments, text literals) walk through
+	// their token character by character - that walk is where the inner line breaks are registered - and never jump
+	// the cursor ahead
+	for _, name := range []string{"parseComment", "parseString"} {
+		if f := u.ssaFunc("pkg/syntax/zh", name); f != nil {
+			bad := ""
+			for _, h := range family(f, 1) {
+				if h.Pkg != f.Pkg {
+					continue
+				}
+				for _, cs := range u.callsNamed(h, "pkg/syntax.Lexer.SetCursor") {
+					bad = u.pos(cs.Pos())
+				}
+			}
+			R.check(bad == "", "C18.lines", "pkg/syntax/zh."+name+":no-cursor-jump", u.pos(f.Pos()), "the scanner advances with Next() only", "the scanner of a multi-line token sets the cursor to a computed position ("+bad+"): the line breaks it jumps over are never registered, so every line number after such a token is too small")
+		}
 	}
 	// a line is registered before anything on it is validated: an error raised while looking at the new line (its
 	// indentation) is reported on that line, so the append to Lines dominates every fallible call of the line loop
